@@ -274,6 +274,8 @@ def gen_form(rng: random.Random, cfg=None) -> Form:
                 put_text(r, "label", "label")
             if rng.random() < cfg["p_group_logic"]:
                 r.cells["relevant"] = expr(r, anc, "relevant")
+            if rng.random() < cfg["p_group_logic"] * 0.3:
+                r.cells[rng.choice(["read_only", "required"])] = rng.choice(["yes", "true()", "no", "TRUE"])
             if r.kind == "repeat" and rng.random() < cfg["p_repeat_count"]:
                 t = pick_ref(r, anc)
                 tt = [x for x in targets if x.type in ("integer",) and not _inside(x, r)]
